@@ -260,7 +260,14 @@ Inductive request :=
     (lock_ok chal_ok prices_ok : bool) (u : usage)
 | RootsReq (off len : nat)
     (lock_ok prices_ok sig_ok : bool)   (* single round: the request carries the renter's signature *)
-    (u : usage).
+    (u : usage)
+| AcctReq (valid has : bool) (cost : N).
+    (* the account-paid RPCs RPCReadSector / RPCVerifySector / RPCWriteSector
+       (server.go handleRPCReadSector, handleRPCVerifySector, handleRPCWriteSector):
+       [valid] = request validation (host-signed prices, account token for this host, not
+       expired, signed by the account; range / leaf index / data length legal; for a write:
+       the announced data arrived); [has] = Sectors.HasSector of the requested root (true for
+       a write); [cost] = RenterCost of the usage. *)
 
 Inductive msg :=
 | MReq (r : request)
@@ -270,6 +277,7 @@ Inductive out :=
 | OFreeResp (newroot : digest)
 | OAppendResp (accepted : list bool) (newroot : digest)
 | ORootsResp (roots : list N)
+| OPaid                          (* account debited, service delivered *)
 | OHostSig
 | OErr.
 
@@ -363,6 +371,15 @@ Definition do_roots (h : host) (off len : nat) (lock_ok prices_ok sig_ok : bool)
         else Some (mk_host (h_roots h) r' (h_account h), ORootsResp (take len (drop off (h_roots h))))
     end.
 
+(** the account-paid RPCs: validate, look the sector up, debit, deliver — in this order
+    (server.go: Validate, HasSector, DebitAccount, ReadSector). Nothing but the account
+    balance changes, and it changes only when the service is delivered. *)
+Definition do_acct (h : host) (valid has : bool) (cost : N) : option host :=
+  if negb valid then None
+  else if negb has then None                      (* ErrSectorNotFound, before the debit *)
+  else if (h_account h <? cost)%N then None       (* DebitAccount: ErrNotEnoughFunds *)
+  else Some (mk_host (h_roots h) (h_rev h) (h_account h - cost)).
+
 (** the renter's signature arrives (server.go:313-337 and 394-410) *)
 Definition on_sig (h : host) (p : pending) (valid : bool) : option host :=
   match p with
@@ -394,6 +411,11 @@ Definition step (a : alias) (s : hst) (m : msg) : hst * list out :=
   | PIdle, MReq (RootsReq off len lk pr sg u) =>
       match do_roots h off len lk pr sg u with
       | Some (h', o) => (mk_hst h' PClosed, [o])
+      | None => (mk_hst h PClosed, [OErr])
+      end
+  | PIdle, MReq (AcctReq valid has cost) =>
+      match do_acct h valid has cost with
+      | Some h' => (mk_hst h' PClosed, [OPaid])
       | None => (mk_hst h PClosed, [OErr])
       end
   | PWait p, MSig valid =>
@@ -437,10 +459,12 @@ Definition committed_ok (h : host) : Prop :=
 Definition fresh_host (funds hostval missed acct : N) : host :=
   mk_host [] (mk_rev 0 (mroot []) 0 0 funds hostval missed) acct.
 
-(** an event that can change the contractor's state: a valid renter signature *)
-Definition carries_valid_sig (e : event) : Prop :=
+(** the only events that can change the contractor's state: a valid renter signature, or
+    a valid account-paid request for a sector the host has *)
+Definition may_commit (e : event) : Prop :=
   match e with
   | EMsg (MSig true) => True
   | EMsg (MReq (RootsReq _ _ _ _ true _)) => True
+  | EMsg (MReq (AcctReq true true _)) => True
   | _ => False
   end.
